@@ -658,7 +658,43 @@ def r99(ctx, R):
         or o.construct == 'provider-alias')
     n += sqlshape.shape_rule(ctx, R, 'R9.9', [
         RPM + ':_get_all_by_filters_from_db'])
-    R.count('R9.9', n, 4)
+    # ... and the object-level listing hands on every row of that query:
+    # what it returns is built from the query's rows one to one, with no
+    # condition and no other source
+    f = ctx.prog.func(RPM + ':get_all_by_filters')
+    q = C.calls_to(ctx, f, RPM + ':_get_all_by_filters_from_db')
+    rets = [r for r in own_nodes(f.node) if isinstance(r, ast.Return)]
+    ok = len(q) == 1 and len(rets) == 1
+    why = 'queries=%d returns=%d' % (len(q), len(rets))
+    if ok:
+        v = rets[0].value
+        view = None
+        if isinstance(v, (ast.ListComp, ast.GeneratorExp)):
+            view = {'gens': [(g.target, g.iter) for g in v.generators],
+                    'conds': [c for g in v.generators for c in g.ifs]}
+        elif isinstance(v, ast.Name):
+            view = C.builder_view(f, v.id)
+        ok = view is not None and len(view['gens']) == 1 and not \
+            view['conds']
+        why = 'result not built one-to-one from the rows'
+        if ok:
+            it = view['gens'][0][1]
+            it = C.inline_locals(f, it)
+            # the rows walked are the query's result itself
+            qsrc = src(C.inline_locals(f, q[0]))
+            ok = src(it) == qsrc or (isinstance(it, ast.Name) and any(
+                isinstance(a, ast.Assign) and a.value is q[0] and any(
+                    isinstance(t, ast.Name) and t.id == it.id
+                    for t in a.targets) for a in own_nodes(f.node)) and len(
+                [a for a in own_nodes(f.node) if isinstance(a, ast.Assign)
+                 and any(isinstance(t, ast.Name) and t.id == it.id
+                         for t in a.targets)]) == 1)
+            why = 'rows walked: %s' % src(it)[:60]
+    n += 1
+    R.ob('R9.9', 'get_all_by_filters:every-row', ok,
+         'the provider listing returns one object per row of the filtered '
+         'query - no row is dropped or added afterwards', why, func=f)
+    R.count('R9.9', n, 5)
 
 
 def run(ctx, R):
